@@ -30,6 +30,7 @@ type c06Desc struct {
 	Puts     int     `json:"puts,omitempty"`      // blocks of the session under test (default 1-5)
 	Strace   bool    `json:"strace,omitempty"`    // hook-independence cross-check instead of crash enumeration
 	Sha256   bool    `json:"sha256,omitempty"`    // only raw sha2-256 blocks (the common case: one hash code, one digest width in the index)
+	FailFin  int     `json:"failfin,omitempty"`   // >0 (storage API, CARv2): a Finalize in mid-session fails at its FailFin-th write (1 = the header, 2.. = index), the caller carries on with more puts and finalizes again
 	OnlyEv   int     `json:"only_ev,omitempty"`   // replay: event index + 1
 	OnlyTear int     `json:"only_tear,omitempty"` // replay: tear + 1
 }
@@ -236,22 +237,47 @@ func runC06(t *mon.T, raw json.RawMessage) {
 		return
 	}
 	s.mark("ack:open")
+	failAfter := -1 // index of the last put before the Finalize that is made to fail
+	if d.FailFin > 0 && s.mf != nil && !cfg.V1 && len(sess) >= 2 {
+		failAfter = len(sess) - 2
+	}
 	for i, b := range sess {
 		s.mark(fmt.Sprintf("call:put:%d", i))
-		if err := s.put(b); err != nil {
+		err := s.put(b)
+		if err != nil && failAfter >= 0 && i > failAfter {
+			// after a failed Finalize the store may refuse further puts: such a block is invoked, never acknowledged
+			t.Cover("failed-finalize:later-put-refused")
+			continue
+		}
+		if err != nil {
 			t.Violatef(key("session/put/error"), "%v", err)
 			s.close()
 			return
 		}
 		s.mark(fmt.Sprintf("ack:put:%d", i))
+		if i == failAfter {
+			// a Finalize whose FailFin-th write fails (disk full while the index is written, say);
+			// the application logs the error and carries on with the same store
+			s.mf.SetFaults([]iofault.Fault{{At: s.mf.Writes() + d.FailFin - 1, Keep: int(d.Seed>>7) % 9}})
+			s.mark("call:finalize(failing)")
+			if ferr := s.finalize(); ferr == nil {
+				t.Cover("failed-finalize:fault-not-reached")
+			} else {
+				t.Cover("failed-finalize:finalize-failed")
+			}
+			s.mf.SetFaults(nil)
+		}
 	}
 	s.mark("call:finalize")
-	if err := s.finalize(); err != nil {
-		t.Violatef(key("session/finalize/error"), "%v", err)
+	ferr := s.finalize()
+	if ferr != nil && failAfter < 0 {
+		t.Violatef(key("session/finalize/error"), "%v", ferr)
 		s.close()
 		return
 	}
-	s.mark("ack:finalize")
+	if ferr == nil {
+		s.mark("ack:finalize")
+	}
 	events := s.events()
 	final := s.bytes()
 	s.close()
@@ -262,7 +288,25 @@ func runC06(t *mon.T, raw json.RawMessage) {
 	}
 	t.Nontrivial()
 	// where every block of the uninterrupted run sits in the file
-	fa, err := refcar.Decode(final, false)
+	layout := final
+	if failAfter >= 0 {
+		// the faulted session's own file need not be a CAR: a fault-free twin tells where each block sits
+		tw, terr := c06Open(d.API, path, initial, d.FirstGen == "", roots, cfg, false)
+		if terr != nil {
+			panic(terr)
+		}
+		for _, b := range sess {
+			if err := tw.put(b); err != nil {
+				panic(err)
+			}
+		}
+		if err := tw.finalize(); err != nil {
+			panic(err)
+		}
+		layout = tw.bytes()
+		tw.close()
+	}
+	fa, err := refcar.Decode(layout, false)
 	if err != nil {
 		t.Violatef(key("session/final/undecodable"), "uninterrupted session gives an undecodable file: %v", err)
 		return
@@ -297,7 +341,10 @@ func runC06(t *mon.T, raw json.RawMessage) {
 			return "resume.truncate"
 		case strings.HasPrefix(call, "put"):
 			return "put.section." + []string{"length", "cid", "data", "extra"}[min(nth, 3)]
-		case call == "finalize":
+		case strings.HasPrefix(call, "finalize"):
+			if call != "finalize" {
+				t.Cover("cut:inside-or-after-a-failed-finalize")
+			}
 			if uint64(e.Off) >= indexOff {
 				return "finalize.index"
 			}
@@ -526,6 +573,11 @@ func genC06(g *mon.G) {
 	for i := 0; i < g.Pick(12, 80); i++ {
 		g.Emit(c06Desc{Seed: r.Int63(), API: "blockstore", Cfg: cfgs[i%len(cfgs)], FirstGen: gens[i%len(gens)], Strace: true})
 	}
+	// a Finalize in mid-session fails at one of its writes (header, index), the caller carries on
+	for i := 0; i < g.Pick(18, 180); i++ {
+		cfg := []lab.Cfg{{}, {DataPad: 9}, {IndexPad: 16}, {Sorted: true, StoreID: true}, {WholeCID: true}, {DataPad: 3, IndexPad: 5, ZeroEOF: true}}[i%6]
+		g.Emit(c06Desc{Seed: r.Int63(), API: "storage", Cfg: cfg, Puts: 3 + r.Intn(3), FailFin: 1 + i%3, AllBytes: g.Thorough()})
+	}
 	// large sessions: the index of 25+ blocks exceeds 1 KiB, so its bytes can pass for a data section
 	// (0x81 0x08 = a 1025-byte length prefix, followed by what parses as an empty identity CID)
 	for i := 0; i < g.Pick(12, 96); i++ {
@@ -548,7 +600,7 @@ func init() {
 		Assumptions: []string{"crash model = prefix of the issued writes with the last write torn (no reordering), as the property states", "trace completeness is checked per session: replaying the trace must reproduce the final file", "hook independence: for 12 (quick) / 80 (thorough) blockstore sessions the hook trace is compared call by call with the pwrite64/ftruncate system calls strace records for the same session in an untapped child process (inconclusive if strace cannot attach)"},
 		Gen:         genC06,
 		Run:         runC06,
-		MinCover: map[string]int{"crash-images": 3000, "reopen:accepted": 500, "reopen:rejected": 100, "continued-and-finalized": 500,
+		MinCover: map[string]int{"crash-images": 3000, "failed-finalize:finalize-failed": 10, "cut:inside-or-after-a-failed-finalize": 20, "reopen:accepted": 500, "reopen:rejected": 100, "continued-and-finalized": 500,
 			"cut:put.section.data:torn": 50, "cut:put.section.cid:torn": 50, "cut:finalize.index": 50, "cut:finalize.header.fields:torn": 20, "cut:resume.truncate": 5, "cut:resume.unfinalize-header.fields:torn": 5, "cut:open.payload-header:torn": 10, "large-sessions(index > 1 KiB)": 8, "strace:cases": 4},
 	})
 }
